@@ -22,12 +22,17 @@ struct BodyKw {
     std::string name;
     std::vector<std::string> records;  // each "... /" (one line)
     bool perWell = false;              // records contain the '?' placeholder
+    bool listInPlace = false;          // '?' stands for a list of wells inside one record (WLIST): expand in place
     bool closing = true;               // keyword terminated by a lone "/"
     std::string render(const std::vector<std::string>* wellsForPlaceholder) const {
         std::string s = name + "\n";
         for (auto& r : records) {
             size_t p = r.find("'?'");
-            if (p != std::string::npos && wellsForPlaceholder) {
+            if (p != std::string::npos && wellsForPlaceholder && listInPlace) {
+                std::string names;
+                for (auto& w : *wellsForPlaceholder) names += "'" + w + "' ";
+                std::string rr = r; rr.replace(p, 3, names); s += " " + rr + "\n";
+            } else if (p != std::string::npos && wellsForPlaceholder) {
                 for (auto& w : *wellsForPlaceholder) { std::string rr = r; rr.replace(p, 3, "'" + w + "'"); s += " " + rr + "\n"; }
             } else s += " " + r + "\n";
         }
@@ -79,6 +84,7 @@ struct Opts {
     bool restartSafeOnly = false;   // restrict to the keyword set the restart machinery supports (C05)
     int unitSystem = -1;            // -1 random, 0 METRIC, 1 FIELD, 2 LAB
     bool histWells = true;
+    bool wpimult = true;            // WPIMULT is applied when its report step closes (C04 exempts it)
 };
 
 struct Model {
@@ -231,7 +237,8 @@ private:
 
     void newWell(StepM& st, bool forceProducer = false, bool forceInjector = false) {
         WellM w;
-        w.name = "W" + std::to_string(++wellCounter);
+        // names whose lexicographic order differs from the order of definition (W1, P2, A3, W10 < W2 ...)
+        { static const char* pfx[] = {"W", "W", "P", "A"}; ++wellCounter; w.name = std::string(pfx[rng.below(4)]) + std::to_string(wellCounter >= 4 && rng.chance(0.3) ? wellCounter + 7 : wellCounter); for (auto& e : M->wells) if (e.name == w.name) w.name += "X"; }
         w.group = wellGroup();
         for (int tries = 0; tries < 50; ++tries) {
             w.i = 1 + (int)rng.below(M->nx); w.j = 1 + (int)rng.below(M->ny);
@@ -337,7 +344,7 @@ private:
         bool placeholder = rng.chance(0.4);
         auto wn = [&](const WellM* x) { return placeholder ? std::string("'?'") : q(x->name); };
         b.perWell = placeholder;
-        switch (rng.below(12)) {
+        switch (rng.below(15)) {
         case 0: b.name = "WELOPEN"; b.records = {wn(w) + " '" + (rng.chance(0.5) ? "SHUT" : "OPEN") + "' /"}; return true;
         case 1: { WellM* p = anyProducer(); if (!p) return false; if (placeholder) { b.perWell = false; } b.name = "WCONPROD"; b.records = {q(p->name) + " 'OPEN' 'ORAT' " + rate() + " 4* " + bhpLow() + " /"}; return true; }
         case 2: { WellM* p = anyProducer(); if (!p) return false; b.perWell = false; b.name = "WELTARG"; static const char* t[] = {"ORAT", "WRAT", "GRAT", "LRAT", "BHP"}; std::string m = t[rng.below(5)]; b.records = {q(p->name) + " '" + m + "' " + (m == "BHP" ? bhpLow() : rate()) + " /"}; return true; }
@@ -349,6 +356,10 @@ private:
         case 8: { b.perWell = false; b.name = "WELSPECS"; std::string nn = "A" + std::to_string(curStep) + "X" + std::to_string(rng.below(1000)); b.records = {q(nn) + " " + q(wellGroup()) + " 1 1 1* 'OIL' /"}; return true; }
         case 9: { b.perWell = false; b.name = "GRUPTREE"; auto nodes = nodeGroups(); std::string parent = nodes.empty() || rng.chance(0.5) ? "FIELD" : nodes[rng.below(nodes.size())]; b.records = {q(wellGroup()) + " " + q(parent) + " /"}; return true; }
         case 10: { b.perWell = false; b.name = "WLIST"; b.records = {"'*AL" + std::to_string(rng.below(3)) + "' 'NEW' " + q(w->name) + " /"}; return true; }
+        // order-sensitive uses of the matched set: the list / the group members come out in the order the wells are visited
+        case 12: { b.perWell = true; b.listInPlace = true; b.name = "WLIST"; b.records = {"'*QL" + std::to_string(rng.below(2)) + "' '" + (rng.chance(0.6) ? "NEW" : "ADD") + "' '?' /"}; if (b.records[0].find("ADD") != std::string::npos) { b.records.insert(b.records.begin(), "'" + b.records[0].substr(1, 4) + "' 'NEW' " + q(w->name) + " /"); } return true; }
+        case 13: { b.perWell = true; b.name = "WELSPECS"; b.records = {"'?' " + q(wellGroup()) + " 1 1 1* 'OIL' /"}; return true; }
+        case 14: { b.perWell = true; b.name = "WTEST"; b.records = {"'?' " + fmtd(1 + rng.below(20)) + " 'P' /"}; return true; }
         case 11: { b.perWell = false; b.name = "WTEST"; b.records = {q(w->name) + " " + fmtd(1 + rng.below(20)) + " 'P' /"}; return true; }
         }
         return false;
@@ -356,7 +367,7 @@ private:
 
     // ------------------------------------------------------------------------------------------------
     void randomKeyword(StepM& st) {
-        int pick = (int)rng.below(44);
+        int pick = (int)rng.below(56);
         WellM* w = anyWell();
         std::ostringstream s;
         switch (pick) {
@@ -379,7 +390,7 @@ private:
         case 11: { if (!w) return; s << "WTEST\n " << q(w->name) << " " << fmtd(1 + rng.below(30)) << " '" << (rng.chance(0.5) ? "P" : "PE") << "' " << (rng.chance(0.5) ? "1*" : "3") << " /\n/\n"; add(st, "WTEST", s.str()); return; }
         case 12: { WellM* p = anyProducer(); if (!p) return; s << "WECON\n " << q(p->name) << " " << fmtd(rng.below(20)) << " 1* " << frac() << " 2* '" << (rng.chance(0.5) ? "CON" : "WELL") << "' /\n/\n"; add(st, "WECON", s.str()); return; }
         case 13: { if (!w) return; std::string l = "*L" + std::to_string(1 + rng.below(3)); bool exists = std::find(M->wlists.begin(), M->wlists.end(), l) != M->wlists.end(); std::string op = exists ? (rng.chance(0.5) ? "ADD" : (rng.chance(0.5) ? "DEL" : "MOV")) : "NEW"; if (!exists) M->wlists.push_back(l); s << "WLIST\n " << q(l) << " '" << op << "' " << q(w->name); WellM* w2 = anyWell(); if (w2 != w && rng.chance(0.5)) s << " " << q(w2->name); s << " /\n/\n"; add(st, "WLIST", s.str()); return; }
-        case 14: { if (!w || w->ks.empty()) return; if (rng.chance(0.5)) s << "WPIMULT\n " << q(w->name) << " " << fmtd(0.5 * (1 + rng.below(5))) << " /\n/\n"; else s << "WPIMULT\n " << q(w->name) << " " << fmtd(0.5 * (1 + rng.below(5))) << " " << w->i << " " << w->j << " " << w->ks[rng.below(w->ks.size())] << " /\n/\n"; add(st, "WPIMULT", s.str()); return; }
+        case 14: { if (!opt.wpimult || !w || w->ks.empty()) return; if (rng.chance(0.5)) s << "WPIMULT\n " << q(w->name) << " " << fmtd(0.5 * (1 + rng.below(5))) << " /\n/\n"; else s << "WPIMULT\n " << q(w->name) << " " << fmtd(0.5 * (1 + rng.below(5))) << " " << w->i << " " << w->j << " " << w->ks[rng.below(w->ks.size())] << " /\n/\n"; add(st, "WPIMULT", s.str()); return; }
         case 15: { WellM* p = anyProducer(); if (!p) return; s << "WTMULT\n " << q(p->name) << " '" << (rng.chance(0.5) ? "ORAT" : "LRAT") << "' " << fmtd(0.5 * (1 + rng.below(4))) << " /\n/\n"; add(st, "WTMULT", s.str()); return; }
         case 16: { s << "TUNING\n " << fmtd(1 + rng.below(3)) << " " << fmtd(10 + rng.below(30)) << " /\n /\n " << (rng.chance(0.5) ? "12 1 50" : "") << " /\n"; add(st, "TUNING", s.str()); return; }
         case 17: { s << "NEXTSTEP\n " << fmtd(1 + rng.below(5)) << " " << (rng.chance(0.5) ? "'YES'" : "'NO'") << " /\n"; add(st, "NEXTSTEP", s.str()); return; }
@@ -415,6 +426,18 @@ private:
             int k = w->ks[rng.below(w->ks.size())]; s << "COMPDAT\n " << q(w->name) << " " << w->i << " " << w->j << " " << k << " " << k << " '" << (rng.chance(0.7) ? "OPEN" : "SHUT") << "' 1* " << (rng.chance(0.5) ? "1*" : fmtd(rng.uniform(1, 40))) << " 0.25 /\n/\n"; add(st, "COMPDAT", s.str()); return; }
         case 41: { s << "GCONSUMP\n " << q(anyGroup()) << " " << rate() << " " << (rng.chance(0.5) ? "1*" : rate()) << " /\n/\n"; add(st, "GCONSUMP", s.str()); return; }
         case 42: { s << "GECON\n " << q(anyGroup()) << " " << rate() << " 1* " << frac() << " 2* '" << (rng.chance(0.5) ? "NONE" : "WELL") << "' /\n/\n"; add(st, "GECON", s.str()); return; }
+        case 44: { s << "GCONSALE\n " << q(anyGroup()) << " " << rate() << " " << (rng.chance(0.5) ? "1*" : rate()) << " " << (rng.chance(0.5) ? "1*" : fmtd(rng.below(50))) << " '" << (rng.chance(0.5) ? "NONE" : (rng.chance(0.5) ? "RATE" : "WELL")) << "' /\n/\n"; add(st, "GCONSALE", s.str()); return; }
+        case 45: { s << "GPMAINT\n " << q(anyGroup()) << " '" << (rng.chance(0.5) ? "WINJ" : (rng.chance(0.5) ? "GINJ" : "NONE")) << "' 1 1* " << fmtd(200 + rng.below(100)) << " " << fmtd(1 + rng.below(10)) << " " << fmtd(1 + rng.below(30)) << " /\n/\n"; add(st, "GPMAINT", s.str()); return; }
+        case 46: { if (!w) return; s << "WVFPEXP\n " << q(w->name) << " '" << (rng.chance(0.5) ? "EXP" : "IMP") << "' '" << (rng.chance(0.5) ? "YES" : "NO") << "' '" << (rng.chance(0.5) ? "YES1" : "NO") << "' /\n/\n"; add(st, "WVFPEXP", s.str()); return; }
+        case 47: { if (!w) return; s << "WVFPDP\n " << q(w->name) << " " << fmtd(rng.uniform(-5, 5)) << " " << fmtd(0.5 + 0.1 * rng.below(10)) << " /\n/\n"; add(st, "WVFPDP", s.str()); return; }
+        case 48: { if (!w) return; s << "WDFAC\n " << q(w->name) << " " << fmtd(1e-5 * (1 + rng.below(9))) << " /\n/\n"; add(st, "WDFAC", s.str()); return; }
+        case 49: { if (!w || w->ks.empty()) return; s << "CSKIN\n " << q(w->name) << " " << w->i << " " << w->j << " " << w->ks.front() << " " << w->ks.back() << " " << fmtd(rng.uniform(-1, 6)) << " /\n/\n"; add(st, "CSKIN", s.str()); return; }
+        case 50: { std::vector<WellM*> v; for (auto& x : M->wells) if (x.msw) v.push_back(&x); if (v.empty()) return; WellM* m = v[rng.below(v.size())]; s << "WSEGVALV\n " << q(m->name) << " " << 2 + rng.below(m->ks.size()) << " " << fmtd(0.5 + 0.1 * rng.below(5)) << " " << fmtd(0.001 * (1 + rng.below(9))) << " /\n/\n"; add(st, "WSEGVALV", s.str()); return; }
+        case 51: { if (!w) return; s << "WRFT\n " << q(w->name) << " /\n/\n"; add(st, "WRFT", s.str()); return; }
+        case 52: { WellM* p = anyProducer(); if (!p) return; s << "WELPI\n " << q(p->name) << " " << fmtd(1 + rng.below(50)) << " /\n/\n"; add(st, "WELPI", s.str()); return; }
+        case 53: { if (!w) return; s << "WDFACCOR\n " << q(w->name) << " " << fmtd(1e-6 * (1 + rng.below(9))) << " " << fmtd(-1.0 - 0.1 * rng.below(5)) << " " << fmtd(0.1 * rng.below(5)) << " /\n/\n"; add(st, "WDFACCOR", s.str()); return; }
+        case 54: { WellM* i = anyInjector(); if (!i) return; s << "WINJTEMP\n " << q(i->name) << " 1* " << fmtd(20 + rng.below(60)) << " /\n/\n"; add(st, "WINJTEMP", s.str()); return; }
+        case 55: { s << "SAVE\n"; add(st, "SAVE", s.str()); return; }
         case 43: { WellM* i = anyInjector(); if (!i) return; s << "WINJMULT\n " << q(i->name) << " " << fmtd(100 + rng.below(200)) << " " << fmtd(0.001 * (1 + rng.below(5))) << " '" << (rng.chance(0.5) ? "WREV" : "CIRR") << "' /\n/\n"; add(st, "WINJMULT", s.str()); return; }
         }
     }
